@@ -41,9 +41,9 @@ def main(argv=None):
         except ImportError as e:
             raise AnalysisError('no rule module for %s (%s)' % (prop, e))
         mod.check(run, repo)
-        if args.tier == 'thorough' and not args.no_selftest and replay is None \
-                and hasattr(mod, 'selftest'):
-            mod.selftest(run, repo)
+        if args.tier == 'thorough' and not args.no_selftest and replay is None:
+            from pmv.selftest import selftest
+            selftest(run, repo, mod)
         code = run.finish(replay=replay)
     except (AnchorError, Unsupported, AnalysisError) as e:
         print('ANALYSIS-ERROR property=%s %s: %s' % (prop, type(e).__name__, e))
